@@ -169,14 +169,15 @@ Definition in_range (els : list elem) (nv : nat) : bool :=
 
 (* ---- the constructor's accept/reject behaviour on the topology side --------------------------------------
    Grid(...) raises (ValueError) when an element refers to a vertex >= number_of_vertices (scipy csr_matrix
-   rejects the index) or when _find_first_common... finds no second pair. *)
+   rejects the index) or when _find_first_common... finds no second pair, and (IndexError) on an empty element
+   array. *)
 Record topology := mkTopology {
   t_edges : list edge; t_element_edges : list (nat * nat * nat);
   t_edge_adjacency : list erow; t_vertex_adjacency : list vrow; t_element_neighbors : list (list nat);
   t_edge_neighbors : list (list nat); t_vertex_neighbors : list (list nat);
   t_edge_on_boundary : list bool; t_vertex_on_boundary : list bool }.
 Definition grid_topology (els : list elem) (nv : nat) : option topology :=
-  if negb (in_range els nv) then None else
+  if (length els =? 0) || negb (in_range els nv) then None else
   match vertex_adjacency els, edge_adjacency els with
   | Some va, Some ea =>
     Some (mkTopology (edges els) (element_edges els) ea va (element_neighbors els) (edge_neighbors els)
